@@ -8,6 +8,7 @@ import (
 	"sort"
 	"strconv"
 
+	"vh/recmap"
 	"vh/rectxn"
 	"vh/recwire"
 )
@@ -54,7 +55,19 @@ func cmdWireCases(args []string) error {
 			return err
 		}
 		var ev map[string]interface{}
+		if c.Mode == "mtype" || c.Mode == "map" {
+			var mc recmap.Case
+			if err := json.Unmarshal(sc.Bytes(), &mc); err != nil {
+				return err
+			}
+			if c.Mode == "mtype" {
+				ev = recmap.TypeCase(mc)
+			} else {
+				ev = recmap.MapCase(mc)
+			}
+		}
 		switch c.Mode {
+		case "mtype", "map":
 		case "rt":
 			ev = recwire.RoundTrip(c)
 		case "dec":
